@@ -13,6 +13,9 @@ def features(f):
         m = re.search(r"class=(\S+)", d)
         c = m.group(1) if m else "?"
         return {"y_class": "noncanonical_alias" if c.startswith("alias_") else c}
+    if f["check"] == "zk_proof_decode_bounded":
+        m = re.search(r"outcome=(\S+)", d)
+        return {"outcome": m.group(1) if m else "?", "crafted": "commitments_len_prefix"}
     if f["check"] == "rs_encode_empty":
         return {"blob_len": 0, "outcome": d.split("->")[-1].strip()}
     return {}
@@ -74,7 +77,11 @@ def replay(ctx, path):
         return 2
     of = os.path.join(ctx.tmp, "replay.ops")
     open(of, "w").write("\n".join(ops) + "\n")
-    rc, so, se, dt = fw.sh([svh, "-replay", of, SUITE])
+    # address-space limit: a crafted proof makes the decoder ask for hundreds of GiB (fatal error, not a panic)
+    rc, so, se, dt = fw.sh("ulimit -v 6291456; exec %s -replay %s %s" % (svh, of, SUITE))
+    if rc != 0:
+        print("implementation process died: rc=%d %s" % (rc, (se or so)[:300]))
+        return 1
     impl = [l for l in so.splitlines() if l and l[0] not in ">#!"]
     model = ctx.run_driver(drv, "suite %s\n" % SUITE + "\n".join(ops) + "\n")
     bad = 0
